@@ -21,4 +21,7 @@ def run(ctx):
     obs += cp.options_untouched_rule(ctx, 'C10')
     # units are compared as written: the tokens reach the conversion routine as cssparser produced them (shared with C08.step)
     obs += [o for o in cp.step_rules(ctx, 'C10') if '/verbatim' in o['key'] or '/anchor' in o['key']]
+    # every rewrite works on tokens: no source text is copied into the output (wave 10; shared by the stylesheet packs)
+    obs += cp.tokens_only_rule(ctx, 'C10')
+    obs += cp.state_counters_rule(ctx, 'C10')
     return obs
